@@ -214,9 +214,91 @@ package matcher
 //@ # the FIRST sets come from Matcher.First, whose implementations are not verified: ASSUMED to hold tokens and
 //@ # non-nil literals only (what hasConflict* need in order not to reach their panic("unreachable"))
 //@ interface Matcher.First
+//@   option termination off
 //@   requires this != nil
+//@   assigns allof(Var.Elem)
+//@   ensures [first-elements] firstOK(in) ==> firstOK(first)
+//@   ensures [may-empty-sound] mayEmpty || nonNull(this)
+//@
+//@ # C28, compile-time half: left recursion is found by Var.First (an Elem already being explored panics with
+//@ # RecursiveError) PROVIDED every First reports mayEmpty whenever its matcher can succeed without consuming a
+//@ # token: otherwise gSequence.First stops in front of the recursive reference. Proved per implementation over the
+//@ # abstract attribute nonNull; the requires clauses are the attribute's meaning for each combinator (ASSUMED, as
+//@ # for Match). Termination of First itself is not proved.
+//@ func (gTrue).First
+//@   option termination off
 //@   assigns nothing
-//@   ensures [first-elements] in == nil ==> firstOK(first)
+//@   ensures first == in && mayEmpty
+//@ func (gWS).First
+//@   option termination off
+//@   assigns nothing
+//@   ensures first == in && mayEmpty
+//@ func (gString).First
+//@   option termination off
+//@   requires nonNull(Matcher(p))
+//@   assigns elems(in)
+//@   ensures [first-elements] firstOK(in) ==> firstOK(first)
+//@ func (*gToken).First
+//@   option termination off
+//@   requires p != nil && nonNull(Matcher(p))
+//@   assigns elems(in)
+//@   ensures [first-elements] firstOK(in) ==> firstOK(first)
+//@ func (*gLiteral).First
+//@   option termination off
+//@   requires p != nil && nonNull(Matcher(p))
+//@   assigns elems(in)
+//@   ensures [first-elements] firstOK(in) ==> firstOK(first)
+//@ func (*Choices).First
+//@   option termination off
+//@   requires p != nil && (forall i in 0..len(p.options) :: p.options[i] != nil) &&
+//@            ((forall i in 0..len(p.options) :: nonNull(p.options[i])) ==> nonNull(Matcher(p)))
+//@   assigns allof(Var.Elem)
+//@   ensures [first-elements] firstOK(in) ==> firstOK(first)
+//@   ensures [may-empty-sound] mayEmpty || nonNull(Matcher(p))
+//@ loop (*Choices).First#1
+//@   invariant p != nil && (firstOK(old(in)) ==> firstOK(in))
+//@   invariant mayEmpty || (forall k in 0..rangeindex+1 :: nonNull(p.options[k]))
+//@ func (*gSequence).First
+//@   option termination off
+//@   requires p != nil && len(p.items) >= 1 && (forall i in 0..len(p.items) :: p.items[i] != nil) &&
+//@            ((exists j in 0..len(p.items) :: nonNull(p.items[j])) ==> nonNull(Matcher(p)))
+//@   assigns allof(Var.Elem)
+//@   ensures [first-elements] firstOK(in) ==> firstOK(first)
+//@   ensures [may-empty-sound] mayEmpty || nonNull(Matcher(p))
+//@ loop (*gSequence).First#1
+//@   invariant p != nil && (firstOK(old(in)) ==> firstOK(in))
+//@   invariant rangeindex >= 0 ==> mayEmpty
+//@   invariant forall k in 0..rangeindex+1 :: !nonNull(p.items[k]) || nonNull(Matcher(p))
+//@ func (*gRepeat0).First
+//@   option termination off
+//@   requires p != nil && p.r != nil
+//@   assigns allof(Var.Elem)
+//@   ensures [first-elements] firstOK(in) ==> firstOK(first)
+//@   ensures [may-empty-sound] mayEmpty
+//@ func (*gRepeat1).First
+//@   option termination off
+//@   requires p != nil && p.r != nil && (nonNull(p.r) ==> nonNull(Matcher(p)))
+//@   assigns allof(Var.Elem)
+//@   ensures [first-elements] firstOK(in) ==> firstOK(first)
+//@   ensures [may-empty-sound] mayEmpty || nonNull(Matcher(p))
+//@ func (*gRepeat01).First
+//@   option termination off
+//@   requires p != nil && p.r != nil
+//@   assigns allof(Var.Elem)
+//@   ensures [first-elements] firstOK(in) ==> firstOK(first)
+//@   ensures [may-empty-sound] mayEmpty
+//@ func (*gAdjoin).First
+//@   option termination off
+//@   requires p != nil && p.a != nil && nonNull(Matcher(p))
+//@   assigns allof(Var.Elem)
+//@   ensures [first-elements] firstOK(in) ==> firstOK(first)
+//@ func (*Var).First
+//@   option termination off
+//@   requires p != nil && (p.Elem != nil && nonNull(p.Elem) ==> nonNull(Matcher(p)))
+//@   assigns allof(Var.Elem)
+//@   panics_if [left-recursion-found] p.Elem == nil
+//@   ensures [first-elements] firstOK(in) ==> firstOK(first)
+//@   ensures [may-empty-sound] mayEmpty || nonNull(Matcher(p))
 //@ func (*Choices).CheckConflicts
 //@   option pure_funcs yes
 //@   requires p != nil && (forall i in 0..len(p.options) :: p.options[i] != nil) && conflict != nil
